@@ -249,6 +249,69 @@ pub fn run(ctx: &Ctx) -> i32 {
     let npre = ["a", "ab", "aé", "b"];
     let t = sweep(ctx, &npre, ctx.tier.pick(3, 4), &c);
     bounds.push(format!("<={} components over {{a,ab,aé,b}} (prefix-related names): {} ordered pairs", ctx.tier.pick(3, 4), t));
+    // long paths: the number of '..' and of kept components grows with the depth; every depth up to 64 on
+    // either side, against the root, a sibling chain and a chain sharing a prefix of every length
+    {
+        let chain = |name: &str, d: usize| -> String { if d == 0 { "/".to_string() } else { format!("/{}", name).repeat(d) } };
+        let mut t = 0u64;
+        for d in 0..=64usize {
+            for e in [0usize, 1, 2, 3, 8, 9, 16, 17, 33, 64] {
+                let pairs = [
+                    (chain("a", d), chain("b", e)),
+                    (chain("a", d), chain("a", e)),
+                    (format!("{}{}", chain("a", d.min(e).max(1)), chain("b", d).trim_end_matches('/')), format!("{}{}", chain("a", d.min(e).max(1)), chain("c", e).trim_end_matches('/'))),
+                ];
+                for (p1, p2) in pairs {
+                    record(&p1, &p2, &c);
+                    record(&p2, &p1, &c);
+                    t += 2;
+                }
+            }
+        }
+        bounds.push(format!("long chains to depth 64 (root, sibling chain, shared prefix of every length): {} ordered pairs", t));
+    }
+    // the stored link target: Memfs derives readlink() with relative() from the link's directory; the link's
+    // own path is handed over clean and in two unclean spellings
+    {
+        let names = ["a", "ab"];
+        let paths = enum_paths(&names, 3);
+        let mut t = 0u64;
+        for l in &paths {
+            if l == "/" {
+                continue;
+            }
+            for tg in &paths {
+                if tg == l {
+                    continue;
+                }
+                let cut = l.rfind('/').unwrap();
+                let (parent, name) = (if cut == 0 { "/" } else { &l[..cut] }, &l[cut + 1..]);
+                for (si, larg) in [l.clone(), format!("{}/x/../{}", parent.trim_end_matches('/'), name), format!("{}/./{}/", parent.trim_end_matches('/'), name)].into_iter().enumerate() {
+                    t += 1;
+                    c.evals.fetch_add(1, Ordering::Relaxed);
+                    let r = catch_unwind(AssertUnwindSafe(|| -> Result<String, String> {
+                        let fs = Memfs::new();
+                        fs.mkdir_p(parent).map_err(|e| e.to_string())?;
+                        fs.symlink(&larg, tg).map_err(|e| format!("symlink: {}", e))?;
+                        fs.readlink(l).map(|x| x.to_string_lossy().into_owned()).map_err(|e| format!("readlink: {}", e))
+                    }));
+                    let bad = match &r {
+                        Ok(Ok(rel)) => rel.starts_with('/') || go_clean(&format!("{}/{}", parent, rel)) != *tg,
+                        _ => true,
+                    };
+                    if bad {
+                        let (l2, tg2, larg2) = (l.clone(), tg.clone(), larg.clone());
+                        vio(
+                            &format!("stored link target does not navigate from the link's directory to the target [link spelling {}]", ["clean", "dotdot", "dot+slash"][si]),
+                            || format!("Memfs: symlink({:?}, {:?}) then readlink({:?}) = {:?}; clean(dir(link)/readlink) must be {:?}", larg2, tg2, l2, r, tg2),
+                            || J::obj([("part", J::s("stored-link-target")), ("link", J::s(&l2)), ("link_arg", J::s(&larg2)), ("target", J::s(&tg2))]),
+                        );
+                    }
+                }
+            }
+        }
+        bounds.push(format!("stored link targets on Memfs: link and target over <=3 components of {{a,ab}} x 3 spellings of the link path: {} cases", t));
+    }
     if ctx.tier == Tier::Thorough {
         let t = sweep(ctx, &["a", "b"], 5, &c);
         bounds.push(format!("<=5 components over {{a,b}}: {} ordered pairs", t));
@@ -326,6 +389,22 @@ pub fn run(ctx: &Ctx) -> i32 {
 fn replay(ctx: &Ctx, f: &std::path::Path) -> i32 {
     let j = crate::common::json::parse(&std::fs::read_to_string(f).expect("read replay")).expect("parse replay");
     let case = j.get("case").expect("case");
+    if case.get("part").and_then(|x| x.as_str()) == Some("stored-link-target") {
+        let g = |k: &str| case.get(k).and_then(|x| x.as_str()).unwrap_or("").to_string();
+        let (l, larg, tg) = (g("link"), g("link_arg"), g("target"));
+        let cut = l.rfind('/').unwrap_or(0);
+        let parent = if cut == 0 { "/".to_string() } else { l[..cut].to_string() };
+        let fs = Memfs::new();
+        let r = fs.mkdir_p(&parent).and_then(|_| fs.symlink(&larg, &tg)).and_then(|_| fs.readlink(&l));
+        println!("replay C16 stored link target: symlink({:?}, {:?}); readlink({:?}) = {:?}", larg, tg, l, r);
+        let ok = matches!(&r, Ok(rel) if !rel.is_absolute() && go_clean(&format!("{}/{}", parent, rel.to_string_lossy())) == tg);
+        if ok {
+            println!("holds on this case");
+            return 0;
+        }
+        println!("VIOLATION property={} replay={}", ctx.prop, f.display());
+        return 1;
+    }
     let p = case.get("path").and_then(|x| x.as_str()).expect("case.path").to_string();
     let b = case.get("base").and_then(|x| x.as_str()).expect("case.base").to_string();
     let got = catch_unwind(AssertUnwindSafe(|| sys::relative(&p, &b)));
